@@ -15,6 +15,9 @@ TIMER = {'test': 'TestVerifTimer', 'comp': 'timer', 'quick': {'VERIF_N': 200, 'V
 ASND = {'test': 'TestVerifAssocSender', 'comp': 'as', 'pairs': True, 'quick': {'VERIF_N': 150, 'VERIF_OPS': 200},
         'thorough': {'VERIF_N': 600, 'VERIF_OPS': 300}, 'seeds': {'quick': 1, 'thorough': 8}}
 
+ARCV = {'test': 'TestVerifAssocReceiver', 'comp': 'ar', 'pairs': True, 'quick': {'VERIF_N': 60, 'VERIF_OPS': 150},
+        'thorough': {'VERIF_N': 400, 'VERIF_OPS': 250}, 'seeds': {'quick': 1, 'thorough': 8}}
+
 
 HSD = {'test': 'TestVerifHandshake', 'comp': 'hs', 'quick': {'VERIF_N': 96},
        'thorough': {'VERIF_N': 960}, 'seeds': {'quick': 1, 'thorough': 8}}
